@@ -12,6 +12,7 @@ void register_io();
 void register_c14();
 void register_c12();
 void register_c19();
+void register_c15();
 void register_all_properties() {
   static bool done = false;
   if (done) return;
@@ -27,5 +28,6 @@ void register_all_properties() {
   register_c14();
   register_c12();
   register_c19();
+  register_c15();
 }
 }
